@@ -20,9 +20,11 @@ func init() {
 			"(R3) Module.status is written only by the six lifecycle sites, under the module lock, each transient state only past the test of its predecessor state and each final state only on the success edge of the control function; " +
 			"(R4) a routine that entered a blocking state (Starting/Stopping) stores a non-blocking state on every path before it reports; " +
 			"(R7) the completion that lets a stopping module be marked offline requires the stop routine to have ended and all work counters to be zero (truth table shared with C05-R3); (R5) driver order (dependencies linked, prep, enabled-tree, start; tree, stop, start; shutdown flag, stop) under mgmtLock, registration refused once locked; (R6) the fix-point loops return success only when nothing is pending or waiting, and the stop pass is never left (with or without an error) while a launched stop is unreported; (R8) the per-module stop sequence ctrlFuncRunning.Set < stopFlag.Set < cancelCtx < stop function < wait < report (shared with C05-R1): a module that completes its stop early lets its dependencies stop while it still runs. " +
+			"(R9) a lifecycle routine that panics is reported as failed, never as a success (the hand-over obligations of C06-R1 for startCtrlFn): a module whose start panicked must not count as started. " +
 			"NOT decided: real interleavings of concurrently starting modules, exactly-once stop over all histories, panics inside routines (C06).",
 		Rules: []ruleFn{c01R1, c01R2, c01R3, c01R4, c01R5, c01R6, func(c *Ctx, r *Report) { stopCompletionRule(c, r, "C01-R7") },
-			func(c *Ctx, r *Report) { stopSequenceRule(c, r, "C01-R8") }},
+			func(c *Ctx, r *Report) { stopSequenceRule(c, r, "C01-R8") },
+			borrowRule(c06R1, "C06-R1", "C01-R9", 1, func(s string) bool { return strings.Contains(s, "startCtrlFn") })},
 	})
 }
 
